@@ -242,8 +242,6 @@ Definition sum_kind (ty : Z) : Z :=
   if ty =? T_TWOSUM then 2 else if ty =? T_DELTASUM then 3 else if ty =? T_YSUM then 4 else 5.
 Definition is_sum_type (ty : Z) : bool :=
   (ty =? T_TWOSUM) || (ty =? T_DELTASUM) || (ty =? T_YSUM) || (ty =? T_THREESUM).
-Definition pivot_child_ok (C : ninfo) : bool :=
-  Nat.eqb (length (t_links C)) 0 || (t_type C =? T_DELTASUM) || (t_type C =? T_THREESUM) || (t_type C =? T_YSUM).
 
 (* the structural (recomposition) part of check_node *)
 Definition structural (P : ninfo) (Cs : list ninfo) : Z :=
@@ -258,8 +256,7 @@ Definition structural (P : ninfo) (Cs : list ninfo) : Z :=
   else if ty =? T_PIVOTS then
     match links, Cs with
     | [L], [C] =>
-      let r := check_pivots P L C in
-      if negb (r =? 0) then r else code_if (pivot_child_ok C) 264
+      check_pivots P L C
     | _, _ => 263
     end
   else if ty =? T_SP then check_sp_node P links Cs
@@ -626,8 +623,7 @@ Proof.
 Qed.
 
 Definition pivot_spec (P : ninfo) (Cs : list ninfo) : Prop :=
-  exists L C, t_links P = [L] /\ Cs = [C] /\ pivots_recompose P L C /\
-              (t_links C = [] \/ t_type C = T_DELTASUM \/ t_type C = T_THREESUM \/ t_type C = T_YSUM).
+  exists L C, t_links P = [L] /\ Cs = [C] /\ pivots_recompose P L C.
 
 Theorem pivot_node_sound : forall P Cs,
   t_type P = T_PIVOTS -> structural P Cs = 0 -> pivot_spec P Cs.
@@ -637,14 +633,8 @@ Proof.
   change (T_PIVOTS =? T_PIVOTS) with true in H. cbv iota in H.
   destruct (t_links P) as [|L [|L' ls]] eqn:EL; try discriminate H;
   destruct Cs as [|C [|C' Cs]]; try discriminate H.
-  destruct (Z.eqb_spec (check_pivots P L C) 0) as [EPv|EPv]; cbn [negb] in H; [|contradiction].
-  code_if_true H. exists L, C. split; [exact EL|]. split; [reflexivity|].
-  split; [apply check_pivots_sound; exact EPv|].
-  unfold pivot_child_ok in H.
-  apply orb_true_iff in H. destruct H as [H|H]; [|right; right; right; apply Z.eqb_eq; exact H].
-  apply orb_true_iff in H. destruct H as [H|H]; [|right; right; left; apply Z.eqb_eq; exact H].
-  apply orb_true_iff in H. destruct H as [H|H]; [|right; left; apply Z.eqb_eq; exact H].
-  left. apply Nat.eqb_eq in H. destruct (t_links C); [reflexivity | discriminate H].
+  exists L, C. split; [exact EL|]. split; [reflexivity|].
+  apply check_pivots_sound; exact H.
 Qed.
 
 (* ---------- 1-sum nodes ---------- *)
